@@ -11,7 +11,7 @@ META = {
                    "cat (block placement with running offsets), pad (zero blocks / bond augmentation), diag (delta-tied modes in "
                    "both directions), mprod, to_ttm, conj and clone is compared with the specified network or block partition.",
     "assumptions": ["exact arithmetic"],
-    "floors": {"E5-CHAIN": 25},
+    "floors": {"E5-CHAIN": 32},
 }
 ANCHORS = ["_extras.cat", "_extras.pad", "_extras.diag", "_tt_base.TT.mprod", "_tt_base.TT.to_ttm", "_tt_base.TT.conj", "_tt_base.TT.clone"]
 
